@@ -177,7 +177,7 @@ pub fn run_case(lines: &[Vec<String>], o: &mut Out) {
                         let rows: Vec<Vec<i64>> = h.get_all_edges().iter().map(|e| edge_row(e)).collect();
                         o.obs(1003, &rows, &[]);
                         // model side: the hypotheses of the Coq theorems hold for this graph
-                        o.obs(46, &[vec![1, 1]], &[]);
+                        o.obs(46, &[vec![1, 1, 1]], &[]);
                         g = Some(Arc::new(h));
                     }
                     _ => return,
